@@ -330,6 +330,10 @@ func (t *Type) asID(seeNamed, escapeReserved bool) string {
 		return "unnamed"
 	}
 	if t.Chan {
+		if escapeReserved {
+			// "chan" alone is a keyword and cannot be used as variable name
+			return "xchan"
+		}
 		return "chan"
 	}
 	return "unknown"
